@@ -26,7 +26,7 @@ def bounded(ops):
 
 def formula_set(tier, dense=False):
     quick = tier == 'quick'
-    I = ((0, 1), (1, 2)) if quick else F.I_QUICK
+    I = ((0, 1), (1, 2), (2, 3)) if quick else F.I_FULL
     U = bounded(F.unary_ops(I, ops=DENSE_U if dense else BF_U))
     B = bounded(F.binary_ops(I, ops=BF_B))
     fs = list(F.F(2, U, B, [(F.PX, F.PY, F.X)]))
